@@ -412,7 +412,7 @@ class VQESolver:
 
         return expectation
 
-    def get_rdm(self, var_params, resample=False, sum_spin=True, ref_state=Circuit()):
+    def get_rdm(self, var_params, resample=False, sum_spin=True, ref_state=None):
         """Compute the 1- and 2- RDM matrices using the VQE energy evaluation.
         This method allows to combine the DMET problem decomposition technique
         with the VQE as an electronic structure solver. The RDMs are computed by
@@ -430,7 +430,8 @@ class VQESolver:
                 qubit terms' frequencies must be set to self.rdm_freq_dict
             sum_spin (bool): If True, the spin-summed 1-RDM and 2-RDM will be
                 returned. If False, the full 1-RDM and 2-RDM will be returned.
-            ref_state (Circuit): A reference state preparation circuit.
+            ref_state (Circuit): A reference state preparation circuit. Default: the solver's own
+                reference circuit when it was given a reference state override.
 
         Returns:
             (numpy.array, numpy.array): One & two-particle spin summed RDMs if
@@ -439,6 +440,8 @@ class VQESolver:
         """
 
         self.ansatz.update_var_params(var_params)
+        if ref_state is None:
+            ref_state = self.reference_circuit if self.ref_state is not None else Circuit()
 
         # Initialize the RDM arrays
         n_mol_orbitals = self.molecule.n_active_mos
@@ -546,7 +549,7 @@ class VQESolver:
 
         return rdm1_spin, rdm2_spin
 
-    def get_rdm_uhf(self, var_params, resample=False, ref_state=Circuit()):
+    def get_rdm_uhf(self, var_params, resample=False, ref_state=None):
         """Compute the 1- and 2- RDM matrices using the VQE energy evaluation.
         This method allows to combine the DMET problem decomposition technique
         with the VQE as an electronic structure solver. The RDMs are computed by
@@ -562,7 +565,8 @@ class VQESolver:
             resample (bool): Whether to resample saved frequencies. get_rdm with
                 savefrequencies=True must be called or a dictionary for each
                 qubit terms' frequencies must be set to self.rdm_freq_dict
-            ref_state (Circuit): A reference state preparation circuit.
+            ref_state (Circuit): A reference state preparation circuit. Default: the solver's own
+                reference circuit when it was given a reference state override.
 
         Returns: TODO
             (numpy.array, numpy.array): One & two-particle spin summed RDMs if
@@ -571,6 +575,8 @@ class VQESolver:
         """
 
         self.ansatz.update_var_params(var_params)
+        if ref_state is None:
+            ref_state = self.reference_circuit if self.ref_state is not None else Circuit()
 
         # Initialize the RDM arrays
         n_mol_orbitals = max(self.molecule.n_active_mos)
